@@ -37,10 +37,7 @@ GROUP = dict(
            _c.contract_only('builder', 'U-set.with_namespace'),
            _c.PURL_SHAPE,
            _c.unit_of('builder', 'theory.build') if False else dict(id='noop', kind='raw', text=''),
-           dict(id='U-acc.builder', file=F, fn='builder', ctx=_G, wrap=_GW, properties=['C09'],
-                contract='''        ensures r.package_type == package_type,
-            r.parts.namespace@.len() == 0, r.parts.version@.len() == 0, r.parts.subpath@.len() == 0, r.parts.qualifiers.qualifiers@.len() == 0,
-            <SmallString as vstd::std_specs::convert::FromSpec<S>>::obeys_from_spec() ==> r.parts.name == <SmallString as vstd::std_specs::convert::FromSpec<S>>::from_spec(name)'''),
+           _c.GP_BUILDER,
            dict(id='U-acc.package_type', file=F, fn='package_type', ctx=_G, wrap=_GW, properties=['C03', 'C09'],
                 contract='        ensures *r == self.package_type'),
            opt_acc('namespace', 'namespace'),
